@@ -46,6 +46,7 @@ let kind_of_string = function
 
 let okind_of_string = function
   | "chan" -> OChan | "array" -> OArray | "func" -> OFunc | "iface" -> OIface
+  | "foreign" -> OUnsafe   (* a type outside the generated universe: only the dynamic type of a converter result *)
   | s -> failwith ("okind " ^ s)
 
 let rec ty_of = function
@@ -85,6 +86,9 @@ let fn_of = function
   | L [A "add"; A z] -> FAdd (z_of_string z)
   | L [A "id"] -> FId
   | L [A "len"] -> FLen
+  | L [A "cnil"] -> FNil
+  | L [A "dyn"; t; v] -> FDyn (ty_of t, val_of v)
+  | L [A "nilif"; z; t; v] -> FNilIf (val_of z, ty_of t, val_of v)
   | _ -> failwith "fn"
 
 let opt_of = function
